@@ -28,6 +28,8 @@ V(i) == CASE i = 1 -> [t |-> "int", v |-> 1]
           [] i = 4 -> [t |-> "bool", v |-> 1]
           [] i = 5 -> [t |-> "str", v |-> 100]      \* 'a'
           [] i = 6 -> [t |-> "str", v |-> 101]      \* 'x' : equal to the NAME x inside a flat key
+          [] i = 7 -> [t |-> "str", v |-> 110]      \* '1' : the repr of the int 1
+          [] i = 8 -> [t |-> "str", v |-> 111]      \* a string of 205 characters
           [] OTHER -> [t |-> "int", v |-> 7]
 NULL == [t |-> "NULL", v |-> 0]
 MARK == [t |-> "mark", v |-> 0]
